@@ -194,3 +194,112 @@ Theorem verdict_on_model_text sds v days : commodity_lex_b v = true ->
   c16_verdict_mtm sds v (transcode days v)
   = verdict_of (c16_violations sds v (erase_entries v (transcode_entries days []))).
 Proof. intros Hv Hes. rewrite transcode_is_ledger_text. apply verdict_on_ledger_text; assumption. Qed.
+
+(* ================================================================== Part 4 *)
+(* what the existing theorems give about the violations on the model's items: the clauses order,
+   unbalanced and commodity of beancount_check find nothing; what is left are posting violations
+   (an account without an open directive in force) *)
+From Coq Require Import Sorted.
+From Knut Require Import Proofs.CalendarSweep Proofs.CalendarProofs Proofs.DateProofs.
+
+Definition posting_kind (x : violation) : Prop :=
+  v_kind x = k_unopened \/ v_kind x = k_use_after_close \/ v_kind x = k_unopened_val \/ v_kind x = k_closed_val.
+
+Lemma check_posting_kind st date desc x : Forall posting_kind (check_posting st date desc x).
+Proof.
+  unfold check_posting. destruct (mem_dated (account_of x) date (st_open st)); [constructor|].
+  destruct (valuation_posting st desc (account_of x)).
+  - constructor; [|constructor]. unfold posting_kind. cbn [v_kind].
+    destruct (mem (account_of x) (st_closed st)); auto.
+  - destruct (mem (account_of x) (st_closed st)); (constructor; [|constructor]); unfold posting_kind; cbn [v_kind]; auto.
+Qed.
+
+Definition entry_commodity_ok (v : str) (e : sentry) : Prop :=
+  match e with ETxn _ _ ps => forallb (fun x => commodity_ok v (commodity_of x)) ps = true | _ => True end.
+
+Lemma check_entries_posting_only v es : forall st,
+  StronglySorted Z.le (map entry_date es) -> Forall (fun e => st_last st <= entry_date e) es ->
+  Forall entry_balanced es -> Forall (entry_commodity_ok v) es ->
+  Forall posting_kind (check_entries v st es).
+Proof.
+  induction es as [|e es IH]; intros st Hs Hl Hb Hc; cbn [check_entries]; [constructor|].
+  inversion Hl as [|? ? Hl1 Hl2]; subst. inversion Hb as [|? ? Hb1 Hb2]; subst. inversion Hc as [|? ? Hc1 Hc2]; subst.
+  cbn [map] in Hs. inversion Hs as [|? ? Hs1 Hs2]; subst.
+  unfold check_entry.
+  replace (entry_date e <? st_last st) with false by (symmetry; apply Z.ltb_ge; exact Hl1).
+  cbn [app]. apply Forall_app. split.
+  - destruct e as [d a|d a|d desc ps]; try constructor.
+    cbn [entry_balanced] in Hb1. cbn [entry_commodity_ok] in Hc1. rewrite Hb1, Hc1. cbn [app].
+    apply Forall_forall. intros x Hx. apply in_flat_map in Hx. destruct Hx as (p & _ & Hx).
+    pose proof (check_posting_kind st (entry_date (ETxn d desc ps)) desc p) as H. rewrite Forall_forall in H. exact (H x Hx).
+  - apply IH; try assumption.
+    assert (E : st_last (next_state st e) = Z.max (entry_date e) (st_last st)) by (destruct e; reflexivity).
+    rewrite E. rewrite Forall_forall in Hs2 |- *. intros e' He'.
+    assert (entry_date e <= entry_date e') by (apply Hs2; apply in_map; exact He'). lia.
+Qed.
+
+(* the commodity the writer prints *)
+Lemma all_ascii_strip v : all_ascii_letters (strip_non_alphanum v) = true.
+Proof.
+  induction v as [|b v IH]; [reflexivity|]. cbn [strip_non_alphanum].
+  destruct (is_ascii_letter b) eqn:E; [cbn [all_ascii_letters forallb]; unfold is_ascii_letter in E; rewrite E; exact IH|].
+  destruct (is_continuation b); [exact IH|]. cbn [all_ascii_letters forallb]. exact IH.
+Qed.
+
+Lemma strip_letters v : all_ascii_letters v = true -> strip_non_alphanum v = v.
+Proof.
+  induction v as [|b v IH]; [reflexivity|]. cbn [all_ascii_letters forallb]. rewrite andb_true_iff. intros [Hb Hv].
+  cbn [strip_non_alphanum]. unfold is_ascii_letter. rewrite Hb. f_equal. apply IH. exact Hv.
+Qed.
+
+Lemma strip_length v : (length (strip_non_alphanum v) <= length v)%nat.
+Proof.
+  induction v as [|b v IH]; [reflexivity|]. cbn [strip_non_alphanum].
+  destruct (is_ascii_letter b); [cbn [length]; lia|]. destruct (is_continuation b); cbn [length]; lia.
+Qed.
+
+Lemma commodity_ok_strip v : commodity_ok v (strip_non_alphanum v) = true.
+Proof.
+  unfold commodity_ok. destruct (all_ascii_letters v) eqn:E.
+  - rewrite (strip_letters v E). apply str_eqb_same.
+  - rewrite all_ascii_strip. cbn [andb]. apply Z.leb_le. pose proof (strip_length v). lia.
+Qed.
+
+Lemma erased_commodity_ok v es : Forall (entry_commodity_ok v) (erase_entries v es).
+Proof.
+  unfold erase_entries. apply Forall_forall. intros e He. apply in_map_iff in He. destruct He as (b & <- & _).
+  destruct b as [d a|d a|t]; cbn [erase_entry entry_commodity_ok]; try exact I.
+  apply forallb_forall. intros x Hx. apply in_map_iff in Hx. destruct Hx as (p & <- & _).
+  unfold erase_posting, commodity_of. cbn [snd]. apply commodity_ok_strip.
+Qed.
+
+(* the least date of the years 0000..9999 *)
+Lemma date_lex_min d : date_lex_b d = true -> min_date <= d.
+Proof.
+  unfold date_lex_b, min_date. rewrite andb_true_iff, Z.leb_le. intros [Hy _].
+  destruct (Z_le_gt_dec (-366) d) as [H|H]; [exact H|exfalso].
+  assert (Hle : d <= -367) by lia. pose proof (civil_le_mono d (-367) Hle) as Hc.
+  unfold year_of in Hy. change (civil (-367)) with (-1, 12, 31) in Hc.
+  destruct (civil d) as [[y m] dd]. cbn [fst] in Hy. destruct Hc as [Hc|Hc].
+  - inversion Hc. lia.
+  - cbn [lex_lt] in Hc. lia.
+Qed.
+
+Lemma entries_lex_min v es : entries_lex_b es = true -> Forall (fun e => min_date <= entry_date e) (erase_entries v es).
+Proof.
+  unfold entries_lex_b, erase_entries. rewrite forallb_forall. intros H. apply Forall_forall. intros e He.
+  apply in_map_iff in He. destruct He as (b & <- & Hb). specialize (H b Hb).
+  destruct b as [d a|d a|t]; cbn [entry_lex_b erase_entry entry_date] in *; rewrite ?andb_true_iff in H;
+    apply date_lex_min; tauto.
+Qed.
+
+Theorem beancount_check_posting_only v es :
+  entries_lex_b es = true ->
+  StronglySorted Z.le (map entry_date (erase_entries v es)) ->
+  Forall entry_balanced (erase_entries v es) ->
+  Forall posting_kind (beancount_check v (erase_entries v es)).
+Proof.
+  intros Hlex Hs Hb. unfold beancount_check. apply check_entries_posting_only; try assumption.
+  - exact (entries_lex_min v es Hlex).
+  - apply erased_commodity_ok.
+Qed.
